@@ -39,7 +39,8 @@ ASSUMPTIONS = [
     "vf/gen_graph.py renders the same function from the same program data in every process",
 ]
 MIN_COUNTERS = {
-    'quick': {'programs_compared': 250, 'comparisons': 1200, 'failing_builds': 150,
+    'quick': {'failing_builds_callee-base': 15, 'distinct_functions_cut_short_by_a_fault': 10,
+              'programs_compared': 250, 'comparisons': 1200, 'failing_builds': 150,
               'residue_checks': 450, 'concurrent_builds': 200,
               'concurrent_serialisations': 100, 'shared_argument_cases': 100,
               'signed_zero_cases': 100, 'shared_object_cases': 100, 'shared_list_cases': 100,
@@ -162,10 +163,43 @@ def build_one(gg, ns, prog, decorate=False, describe=False):
         return ['exc', type(e).__name__]
 
 
+CALLEE_SITES = set()
+_FP = []
+_FP_LOCK = threading.Lock()
+
+
+def _failpoint():
+    """Fail points in everything the constructor of a definition calls; the two
+    frames that own the clean-up (SynthDef.__init__ / _build) are left out: an
+    exception raised by a callee is what they promise to clean up after."""
+    if not _FP:
+        import sys
+        from vf.inject import Failpoint, module_codes
+        import sc3.synth.synthdef as sdm
+        import sc3.synth.ugen as ugm
+        mods = [sdm, ugm] + [m for n, m in list(sys.modules.items())
+                             if n.startswith(('sc3.synth.ugens.', 'sc3.synth._'))
+                             and m is not None]
+        _FP.append(Failpoint(module_codes(
+            mods, exclude=('SynthDef.__init__', 'SynthDef._build'))))
+    return _FP[0]
+
+
 def failing_build(gg, ns, rng, seed, acc, main, where):
     """Performs one build that must fail, then checks that nothing is left."""
     mode = rng.choice(['func-exc-after', 'func-exc-before', 'func-base-after',
-                       'func-base-before', 'invalid', 'writer', 'func-exc-mid'])
+                       'func-base-before', 'invalid', 'writer', 'func-exc-mid',
+                       'callee-exc', 'callee-base', 'callee-base'])
+    if mode.startswith('callee') and not _FP_LOCK.acquire(False):
+        mode = 'func-base-after'        # one fail point user at a time
+    try:
+        return _failing_build(gg, ns, rng, seed, acc, main, where, mode)
+    finally:
+        if mode.startswith('callee'):
+            _FP_LOCK.release()
+
+
+def _failing_build(gg, ns, rng, seed, acc, main, where, mode):
     prog = gen(seed, 10 ** 6 + rng.randrange(5000))
     raised = None
     sd_w = None
@@ -189,6 +223,28 @@ def failing_build(gg, ns, rng, seed, acc, main, where):
                 f(*a, **k)
                 raise E('vf injected')
             ns['SynthDef'](prog['name'], w, **gg.synthdef_kwargs(prog))
+        elif mode.startswith('callee'):
+            # a valid program whose build is cut short by an exception (an
+            # interrupt for 'base') at a random statement of any function that the
+            # constructor calls: graph function, unit constructors, optimiser,
+            # input checks, sort, indexing - found by counting a dry build first
+            ename = rng.choice(FAIL_BASE if 'base' in mode else FAIL_EXC)
+            fp = _failpoint()
+            with fp:
+                fp.arm(None, None)
+                gg.build(prog, dict(ns))
+                total = fp.n
+                fp.disarm()
+                if total:
+                    nth = rng.randint(1, total)
+                    acc.maxi('max_statements_in_a_build_open_to_faults', total)
+                    fp.arm(nth, exc_class(ename)('vf injected'))
+                    try:
+                        gg.build(prog, dict(ns))
+                    finally:
+                        fp.disarm()
+                        if fp.fired_at:
+                            CALLEE_SITES.add(fp.fired_at[0])
         elif mode == 'invalid':
             what = rng.choice(gg.INVALID_KINDS)
             p2 = gg.gen_program_c02(rng, 'invalid:' + what, name='bad')
@@ -214,6 +270,7 @@ def failing_build(gg, ns, rng, seed, acc, main, where):
                 pass
     acc.count('failing_builds')
     acc.count(f"failing_builds_{mode.split(':')[0]}")
+    acc.maxi('distinct_functions_cut_short_by_a_fault', len(CALLEE_SITES))
     if raised is None:
         acc.count('failing_build_did_not_fail/' + mode)
         return
